@@ -89,6 +89,9 @@ func (m *Monitor) afterFailure(prop string) string {
 	return ""
 }
 
+// violationSink, when set (worker processes), is told of every violation the moment it is detected.
+var violationSink func(Violation)
+
 func (m *Monitor) violate(props string, rule string, f string, a ...interface{}) {
 	if m.seen[rule] {
 		return
@@ -100,6 +103,9 @@ func (m *Monitor) violate(props string, rule string, f string, a ...interface{})
 	m.seen[rule] = true
 	v := Violation{Props: strings.Split(props, ","), Rule: rule, Msg: fmt.Sprintf(f, a...), Op: m.w.curOp}
 	m.viol = append(m.viol, v)
+	if violationSink != nil {
+		violationSink(v)
+	}
 	m.w.logf("  !! %s [%s]: %s", rule, props, v.Msg)
 }
 
